@@ -14,11 +14,12 @@ pkg=$(grep -m1 '^package ' $demo | awk '{print $2}')
 case $pkg in
   starlark_test|starlark) dir=starlark;; time|time_test) dir=lib/time;; json|json_test) dir=lib/json;; proto|proto_test) dir=lib/proto;;
   syntax|syntax_test) dir=syntax;; resolve|resolve_test) dir=resolve;; compile|compile_test) dir=internal/compile;; starlarkstruct|starlarkstruct_test) dir=starlarkstruct;;
-  math|math_test) dir=lib/math;; *) dir=starlark;;
+  math|math_test) dir=lib/math;; c17demo) dir=c17demo;; *) dir=starlark;;
 esac
+RACE=""; [ "$ID" = "C05" ] && RACE="-race"
 hint=$(grep -ohE '(starlark|lib/[a-z]+|syntax|resolve|internal/compile|starlarkstruct)/[a-z_]*_test\.go' $D/README.md 2>/dev/null | head -1)
 [ -n "$hint" ] && dir=$(dirname $hint)
-run_demo() { ( cd $W && cp $demo $dir/zz_seed_demo_test.go && go test -vet=off -count=1 -run 'Demo|Seed|Mutant|C[0-9][0-9]' ./$dir > $W/demo.out 2>&1; rc=$?; rm -f $dir/zz_seed_demo_test.go; exit $rc ); }
+run_demo() { ( cd $W && mkdir -p $dir && n=0 && for f in $D/*_test.go $(dirname $D)/common/*_test.go; do [ -f "$f" ] && { case "$f" in */common/*) [ -f "$D/$(basename $f)" ] && continue;; esac; n=$((n+1)); cp $f $dir/zz_seed_${n}_test.go; }; done; go test $RACE -vet=off -count=1 ./$dir > $W/demo.out 2>&1; rc=$?; rm -f $dir/zz_seed_*_test.go; exit $rc ); }
 run_demo; base=$?
 [ $base -ne 0 ] && { echo "NOT-CONFIRMED $ID $NAME demo fails WITHOUT the change: $(tail -3 $W/demo.out | tr '\n' ' ' | cut -c1-200)"; cleanup; exit 1; }
 ( cd $W && git apply --whitespace=nowarn $D/patch.diff ) || { echo "NOT-CONFIRMED $ID $NAME patch does not apply to current HEAD"; cleanup; exit 1; }
